@@ -1,5 +1,6 @@
 import PyaisVerif.Model.CommState
 import PyaisVerif.Generated.Consts
+import PyaisVerif.Generated.Funcs
 /-!
 # C20 — communication state is decoded bit-exactly and classified SOTDMA or ITDMA
 
@@ -106,6 +107,68 @@ theorem C20_report (t radio : Nat) :
       if isSotdma K t radio then sotdma K (radio % 2 ^ 19) else some (itdma K (radio % 2 ^ 19)) := by
   simp only [getCommState, C20_raw]
 
+/-! ## The functions of the current source (tie 1)
+
+`Generated/Funcs.lean` is a statement-by-statement rendering of `get_sotdma_comm_state`,
+`get_itdma_comm_state`, `is_sotdma`, `is_itdma` and `communication_state_raw` as they are written in
+/repo now (regenerated on every run by `harness/translate_fn.py`; one `let` per assignment, the
+`SyncState(…)` conversion as a membership test in the enum's present members, `raise` = `none`).
+The theorems below say that this text computes the hand-written model — and therefore, with the
+theorems above, the ITU bit ranges — for **every** radio value. -/
+
+private theorem mem4 (x : Nat) : ([0, 1, 2, 3] : List Nat).contains (x % 2 ^ 2) = true := by
+  have : x % 2 ^ 2 < 4 := Nat.mod_lt _ (by decide)
+  generalize x % 2 ^ 2 = s at *
+  have : s = 0 ∨ s = 1 ∨ s = 2 ∨ s = 3 := by omega
+  rcases this with h | h | h | h <;> subst h <;> decide
+
+theorem C20_src_sotdma (r : Nat) : Generated.sotdmaFn r = sotdma K r := by
+  rw [consts_expected]
+  simp only [Generated.sotdmaFn, sotdma, and3, and7, and3fff, and1f, and3f, mem4, if_true]
+  have ht : (r >>> 14) % 2 ^ 3 < 8 := Nat.mod_lt _ (by decide)
+  generalize (r >>> 14) % 2 ^ 3 = t at *
+  have : t = 0 ∨ t = 1 ∨ t = 2 ∨ t = 3 ∨ t = 4 ∨ t = 5 ∨ t = 6 ∨ t = 7 := by omega
+  rcases this with h | h | h | h | h | h | h | h <;> subst h <;> simp
+
+theorem C20_src_itdma (r : Nat) : Generated.itdmaFn r = some (itdma K r) := by
+  rw [consts_expected]; rfl
+
+theorem C20_src_raw (r : Nat) : Generated.commStateRawFn r = commStateRaw K r := by
+  rw [consts_expected]; rfl
+
+theorem C20_src_is_sotdma (t r : Nat) : Generated.isSotdmaFn t r = isSotdma K t r := by
+  rw [consts_expected]
+  simp only [Generated.isSotdmaFn, isSotdma]
+  all_goals (split <;> split <;> simp_all)
+
+theorem C20_src_is_itdma (t r : Nat) : Generated.isItdmaFn t r = isItdma K t r := by
+  rw [consts_expected]
+  simp only [Generated.isItdmaFn, isItdma]
+  all_goals (split <;> split <;> simp_all)
+
+/-- the source text itself meets the ITU specification: SOTDMA -/
+theorem C20_source_sotdma (r : Nat) (hmin : bitsOf r 14 3 = 1 → bitsOf (bitsOf r 0 14) 2 7 ≤ 59) :
+    Generated.sotdmaFn r = some (specSotdma r) := by
+  rw [C20_src_sotdma, C20_sotdma r hmin]
+
+/-- the source text itself meets the ITU specification: ITDMA -/
+theorem C20_source_itdma (r : Nat) : Generated.itdmaFn r = some (specItdma r) := by
+  rw [C20_src_itdma, C20_itdma]
+
+/-- the source text classifies as the property says -/
+theorem C20_source_classify (t radio : Nat) (ht : t ∈ Generated.radioTypes) (hr : radio < 2 ^ 20) :
+    (Generated.isSotdmaFn t radio = !Generated.isItdmaFn t radio) ∧
+    (t ∈ [1, 2, 4, 11] → Generated.isSotdmaFn t radio = true) ∧
+    (t = 3 → Generated.isItdmaFn t radio = true) ∧
+    (t ∈ [9, 18, 26] → (Generated.isItdmaFn t radio = true ↔ bitsOf radio 19 1 = 1)) := by
+  simp only [C20_src_is_sotdma, C20_src_is_itdma]
+  exact C20_classify t radio ht hr
+
+/-- the source text reports the low 19 bits -/
+theorem C20_source_raw (radio : Nat) : Generated.commStateRawFn radio = radio % 2 ^ 19 := by
+  rw [C20_src_raw, C20_raw]
+
+
 /-- non-vacuity: a UTC sub-message with a valid minute, and a classified type-18 message -/
 example : bitsOf 0x45A3C 14 3 = 1 ∧ bitsOf (bitsOf 0x45A3C 0 14) 2 7 ≤ 59 ∧
     sotdma K 0x45A3C = some (specSotdma 0x45A3C) := by decide
@@ -119,4 +182,13 @@ example : isItdma K 18 0x80001 = true ∧ isSotdma K 18 0x80001 = false := by de
 #print axioms C20_raw
 #print axioms C20_classify
 #print axioms C20_report
+#print axioms C20_src_sotdma
+#print axioms C20_src_itdma
+#print axioms C20_src_raw
+#print axioms C20_src_is_sotdma
+#print axioms C20_src_is_itdma
+#print axioms C20_source_sotdma
+#print axioms C20_source_itdma
+#print axioms C20_source_classify
+#print axioms C20_source_raw
 end C20
